@@ -1,3 +1,103 @@
-//! Independent oracles (failing-input search).  Filled in per property.
-use std::collections::HashMap;
-pub fn run(_opt: &HashMap<String, String>) -> i32 { 0 }
+//! Independent oracles: executable statements of the properties evaluated on
+//! the implementation's outputs.  Used to SEARCH for failing inputs; a check
+//! never passes because of them.
+use std::collections::{HashMap, HashSet};
+
+use crate::common::*;
+use crate::gen::*;
+use crate::streams::{json_str, opt_str, opt_u64};
+
+pub struct Report {
+    pub evaluations: u64,
+    pub nontrivial: HashSet<u64>,
+    pub violations: Vec<String>,
+    pub samples: Vec<String>,
+    pub extra: Vec<(String, String)>,
+}
+
+impl Report {
+    pub fn new() -> Report {
+        Report { evaluations: 0, nontrivial: HashSet::new(), violations: vec![], samples: vec![], extra: vec![] }
+    }
+    pub fn violation(&mut self, s: String) { if self.violations.len() < 25 { self.violations.push(s); } }
+    pub fn sample(&mut self, s: String) { if self.samples.len() < 3 { self.samples.push(s); } }
+    pub fn print(&self) -> i32 {
+        let v: Vec<String> = self.violations.iter().map(|s| format!("{{\"desc\":{}}}", json_str(s))).collect();
+        let s: Vec<String> = self.samples.iter().map(|s| json_str(s)).collect();
+        let e: Vec<String> = self.extra.iter().map(|(k, v)| format!(",{}:{}", json_str(k), v)).collect();
+        println!("{{\"ok\":{},\"evaluations\":{},\"distinct_nontrivial\":{},\"violations\":[{}],\"samples\":[{}]{}}}",
+            self.violations.is_empty(), self.evaluations, self.nontrivial.len(), v.join(","), s.join(","), e.join(""));
+        if self.violations.is_empty() { 0 } else { 1 }
+    }
+}
+
+pub fn run(opt: &HashMap<String, String>) -> i32 {
+    let name = opt_str(opt, "oracle", "");
+    let seed = opt_u64(opt, "seed", 1);
+    let thorough = opt_str(opt, "tier", "quick") == "thorough";
+    let enlarge = opt_u64(opt, "enlarge", 0) == 1;
+    let mut rep = Report::new();
+    match name {
+        "shape_sweep" => shape_sweep(&mut rep, seed, thorough || enlarge),
+        _ => { eprintln!("unknown oracle {}", name); return 2; }
+    }
+    rep.print()
+}
+
+// ------------------------------------------------------------------ C13
+fn wellformed(n: u64, len: usize) -> bool {
+    n < (1u64 << 32) && (n * n.saturating_sub(1) / 2) as usize == len
+}
+
+/// every (len, n) in a box plus extreme n, all entry points, fresh and `_with`
+fn shape_sweep(rep: &mut Report, seed: u64, big: bool) {
+    let mut rng = Rng::new(seed ^ 0xC13);
+    let max_len = if big { 2000 } else { 320 };
+    let max_n = 64u64;
+    let vals: Vec<f64> = (0..max_len + 1).map(|k| 1.0 + ((k * 7) % 11) as f64).collect();
+    let mut st64: kodama::LinkageState<f64> = kodama::LinkageState::new();
+    let mut d64: kodama::Dendrogram<f64> = kodama::Dendrogram::new(0);
+    let mut st32: kodama::LinkageState<f32> = kodama::LinkageState::new();
+    let mut d32: kodama::Dendrogram<f32> = kodama::Dendrogram::new(0);
+    let mut ns: Vec<u64> = (0..=max_n).collect();
+    ns.extend_from_slice(&[u64::MAX, 1u64 << 63, u64::MAX - 1, (1u64 << 63) + 1, 1u64 << 62, 1u64 << 60]);
+    for len in 0..=max_len {
+        for &n in &ns {
+            let algo = rng.below(5) as u8;
+            // rotate entry points deterministically so that all of them see all shapes over the sweep
+            for da in 0..(if len <= 40 { 5 } else { 2 }) {
+                let algo = (algo + da) % 5;
+                let method = loop { let m = rng.below(7) as u8; if accepts(algo, m) { break m; } };
+                let wide = rng.below(3) != 0;
+                let use_with = rng.below(2) == 0;
+                let good = wellformed(n, len);
+                if good && n > 40 { continue; } // well-formed big cases are the algo stream's job
+                let res: Result<usize, (u64, String)> = if wide {
+                    let mut m: Vec<f64> = vals[..len].to_vec();
+                    if use_with && n < (1 << 40) { catch(|| { call_with::<f64>(algo, method, &mut st64, &mut m, n as usize, &mut d64); d64.len() }) }
+                    else { catch(|| call_fresh::<f64>(algo, method, &mut m, n as usize).len()) }
+                } else {
+                    let mut m: Vec<f32> = vals[..len].iter().map(|&x| x as f32).collect();
+                    if use_with && n < (1 << 40) { catch(|| { call_with::<f32>(algo, method, &mut st32, &mut m, n as usize, &mut d32); d32.len() }) }
+                    else { catch(|| call_fresh::<f32>(algo, method, &mut m, n as usize).len()) }
+                };
+                rep.evaluations += 1;
+                if !good { rep.nontrivial.insert(hash64(&[algo as u64, n, len as u64, use_with as u64])); }
+                match (&res, good) {
+                    (Ok(k), false) => rep.violation(format!(
+                        "C13 malformed shape accepted: {}{} {} {} n={} len={} returned a dendrogram with {} steps",
+                        ALGO_NAMES[algo as usize], if use_with { "_with" } else { "" }, METHOD_NAMES[method as usize],
+                        if wide { "f64" } else { "f32" }, n, len, k)),
+                    (Err((c, msg)), true) => rep.violation(format!(
+                        "C13 well-formed shape rejected: {} {} n={} len={} panic{} {}",
+                        ALGO_NAMES[algo as usize], METHOD_NAMES[method as usize], n, len, c, msg)),
+                    _ => {}
+                }
+                if len == 3 && (n == 3 || n == 4) && da == 0 {
+                    rep.sample(format!("{}{} n={} len={} -> {}", ALGO_NAMES[algo as usize], if use_with { "_with" } else { "" }, n, len,
+                        match &res { Ok(k) => format!("ok {} steps", k), Err((c, _)) => format!("panic class {}", c) }));
+                }
+            }
+        }
+    }
+}
